@@ -181,7 +181,9 @@ func c02Chain(c *core.Ctx, r *core.Result, cov Coverage, wal bool) {
 		},
 	}
 	var err error
-	d, err = drive.Open(dir+"/main/db", fake.NewNode(b.Chain), nil, wal)
+	mainNode := fake.NewNode(b.Chain)
+	mainNode.KeepLog = true
+	d, err = drive.Open(dir+"/main/db", mainNode, nil, wal)
 	if err != nil {
 		panic("harness: " + err.Error())
 	}
@@ -197,6 +199,19 @@ func c02Chain(c *core.Ctx, r *core.Result, cov Coverage, wal bool) {
 		return
 	}
 
+	// upstream requests of each block, in order of arrival (a block's requests follow its dblock request)
+	reqsAt := map[uint32][]fake.Req{}
+	{
+		cur := uint32(0)
+		for _, rq := range mainNode.Log {
+			if rq.Kind == "dblock" {
+				cur = rq.Height
+			}
+			if rq.Kind != "heights" && cur != 0 {
+				reqsAt[cur] = append(reqsAt[cur], rq)
+			}
+		}
+	}
 	// ---- clean-restart references for attribution of resume differences (C09)
 	cleanRestart := map[uint32]string{}
 	cleanRef := func(s uint32) string {
@@ -222,6 +237,10 @@ func c02Chain(c *core.Ctx, r *core.Result, cov Coverage, wal bool) {
 			os.RemoveAll(startDir)
 			if err := drive.CopyDB(img.dir+"/db", startDir+"/db"); err == nil {
 				startHeight = img.height
+				if !wal && (c.Only == "" || strings.Contains(c.Only, "/request-fails/")) {
+					// (e) "a block fails at any instant", upstream side: one request of this block fails once
+					c02FailRequests(c, r, cov, b, D, startDir, img.height, reqsAt[img.height], name, dir)
+				}
 			}
 		}
 		key := fmt.Sprintf("%s/h%d/op%d", name, img.height, img.op)
@@ -455,6 +474,105 @@ func c02FailAt(r *core.Result, cov Coverage, b *drive.Builder, D map[uint32]cano
 	if !canon.Equal(D[target], ledger) {
 		r.Violate(core.Violation{Key: key + "/fails", Signature: "C02:ledger-differs-after-failed-statement:" + site,
 			Desc: fmt.Sprintf("chain %s: after %s (call site %s) of block %d failed once, the ledger at height %d differs from the uninterrupted run (tables %s)", cov.Name, img.desc, site, img.height, target, strings.Join(canon.TablesDiffering(D[target], ledger), "+")), Detail: joinDiff(D[target], ledger)})
+	}
+}
+
+// c02FailRequests: the daemon starts from the state before block h; one upstream request of that block (every request that is
+// not an entry fetch, and the first, second and last entry fetch) fails once with a transport error. The block must fail as a
+// whole and be retried: three blocks later every height is applied exactly once and the ledger equals the uninterrupted one.
+func c02FailRequests(c *core.Ctx, r *core.Result, cov Coverage, b *drive.Builder, D map[uint32]canon.Dump, startDir string, h uint32, reqs []fake.Req, name, scratch string) {
+	var entries []int
+	var pick []int
+	for i, rq := range reqs {
+		if rq.Kind == "entry" {
+			entries = append(entries, i)
+		} else {
+			pick = append(pick, i)
+		}
+	}
+	for j, i := range entries {
+		if j < 2 || j == len(entries)-1 {
+			pick = append(pick, i)
+		}
+	}
+	for _, i := range pick {
+		rq := reqs[i]
+		key := fmt.Sprintf("%s/h%d/request-fails/%s#%d", name, h, rq.Kind, i)
+		if !c.Want(key) {
+			continue
+		}
+		if c.Expired() {
+			return
+		}
+		cov.Era.Apply()
+		fdir := fmt.Sprintf("%s/reqfail-%d-%d", scratch, h, i)
+		if err := drive.CopyDB(startDir+"/db", fdir+"/db"); err != nil {
+			panic("harness: " + err.Error())
+		}
+		target := h + 3
+		if target > b.Chain.Tip() {
+			target = b.Chain.Tip()
+		}
+		fired := false
+		site := "request:" + rq.Kind
+		d, err := drive.Open(fdir+"/db", fake.NewNode(b.Chain), nil, false)
+		if err != nil {
+			panic("harness: " + err.Error())
+		}
+		out := d.SyncTo(target, drive.SyncOpts{FaultPending: func() bool { return !fired },
+			OnRequest: func(q fake.Req) fake.FaultKind {
+				if !fired && q.Method == rq.Method && q.Key == rq.Key {
+					fired = true
+					site = siteOf(sqlw.CallerStack()) + "/upstream"
+					return fake.FaultTransport
+				}
+				return fake.NoFault
+			}})
+		d.Close()
+		if fired {
+			r.Count("upstream-failures-injected", 1)
+		}
+		r.Outcome("request-failure:" + outcomeClass(out))
+		if !out.Reached {
+			r.Violate(core.Violation{Key: key, Signature: "C02:" + cov.Name + ":block-not-recovered-after-failed-request:" + rq.Kind + ":" + outcomeClass(out), Desc: fmt.Sprintf("after one failed %s request of block %d the daemon does not reach height %d: %s", rq.Kind, h, target, out.String())})
+		} else {
+			c02CheckAfterFailure(r, cov, D, fdir+"/db", target, key, fmt.Sprintf("one %s request of block %d failed once", rq.Kind, h), site)
+		}
+		os.RemoveAll(fdir)
+	}
+}
+
+// c02CheckAfterFailure: every height up to target applied exactly once, ledger equal to the uninterrupted run's.
+func c02CheckAfterFailure(r *core.Result, cov Coverage, D map[uint32]canon.Dump, path string, target uint32, key, what, site string) {
+	all, err := canon.FileRW(drive.DBFileOf(path), canon.All)
+	if err != nil {
+		panic("harness: " + err.Error())
+	}
+	ledger := canon.Dump{}
+	seen := map[uint32]int{}
+	for t, rows := range all {
+		if t != "pn_sync_version" {
+			ledger[t] = rows
+			continue
+		}
+		for _, row := range rows {
+			var h uint32
+			var v int
+			fmt.Sscanf(row, "height=%d version=%d", &h, &v)
+			if v != -1 {
+				seen[h]++
+			}
+		}
+	}
+	for h := cov.Era.Base + 1; h <= target; h++ {
+		if seen[h] != 1 {
+			r.Violate(core.Violation{Key: key, Signature: "C02:" + cov.Name + ":height-not-applied-exactly-once-after-failed-block", Desc: fmt.Sprintf("after %s, height %d has %d version rows (synced %d)", what, h, seen[h], target)})
+			return
+		}
+	}
+	if !canon.Equal(D[target], ledger) {
+		r.Violate(core.Violation{Key: key, Signature: "C02:ledger-differs-after-failed-statement:" + site,
+			Desc: fmt.Sprintf("chain %s: after %s, the ledger at height %d differs from the uninterrupted run (tables %s)", cov.Name, what, target, strings.Join(canon.TablesDiffering(D[target], ledger), "+")), Detail: joinDiff(D[target], ledger)})
 	}
 }
 
